@@ -253,15 +253,15 @@ Block(word, ts, i, e) ==
   ELSE IF ~IsPu(ts, i + 2, e, ";") THEN [hit |-> TRUE, ok |-> FALSE, i |-> (IF i + 2 < e THEN i + 2 ELSE e), v |-> ""]
   ELSE [hit |-> TRUE, ok |-> TRUE, i |-> i + 3, v |-> ts[i + 1].v]
 
-(* a block may state several prologues / epilogues: all are kept, in source order, one per line *)
-JoinText(a, b) == IF a = NoText THEN b ELSE a \o "\n" \o b
+(* a block may state several prologues / epilogues: all are kept, in source order (the code trims each and joins them *)
+(* with a line break; the abstract backend keeps the sequence of texts as written, <<>> when there is none)            *)
 RECURSIVE BackBody(_, _, _, _, _)
 BackBody(ts, i, c, pro, epi) ==
   IF i >= c THEN Ok(c + 1, [pro |-> pro, epi |-> epi], NoLo)
   ELSE LET p == Block("prologue", ts, i, c)
            q == Block("epilogue", ts, i, c)
-       IN IF p.hit THEN (IF p.ok THEN BackBody(ts, p.i, c, JoinText(pro, p.v), epi) ELSE Er(p.i, c))
-          ELSE IF q.hit THEN (IF q.ok THEN BackBody(ts, q.i, c, pro, JoinText(epi, q.v)) ELSE Er(q.i, c))
+       IN IF p.hit THEN (IF p.ok THEN BackBody(ts, p.i, c, Append(pro, p.v), epi) ELSE Er(p.i, c))
+          ELSE IF q.hit THEN (IF q.ok THEN BackBody(ts, q.i, c, pro, Append(epi, q.v)) ELSE Er(q.i, c))
           ELSE Er(i, c)
 
 P_Backend(ts, m, i, e) ==     \* ts[i] = `backend`
@@ -269,10 +269,10 @@ P_Backend(ts, m, i, e) ==     \* ts[i] = `backend`
   IN IF ~n.ok THEN n ELSE
   LET p == Block("prologue", ts, n.i, e)
       q == Block("epilogue", ts, n.i, e)
-  IN IF p.hit THEN (IF p.ok THEN Ok(p.i, GBack(n.v, p.v, NoText), NoLo) ELSE Er(p.i, e))
-     ELSE IF q.hit THEN (IF q.ok THEN Ok(q.i, GBack(n.v, NoText, q.v), NoLo) ELSE Er(q.i, e))
+  IN IF p.hit THEN (IF p.ok THEN Ok(p.i, GBack(n.v, <<p.v>>, <<>>), NoLo) ELSE Er(p.i, e))
+     ELSE IF q.hit THEN (IF q.ok THEN Ok(q.i, GBack(n.v, <<>>, <<q.v>>), NoLo) ELSE Er(q.i, e))
      ELSE IF ~IsPu(ts, n.i, e, "{") THEN Er(n.i, e)
-     ELSE LET b == BackBody(ts, n.i + 1, m[n.i], NoText, NoText)
+     ELSE LET b == BackBody(ts, n.i + 1, m[n.i], <<>>, <<>>)
           IN IF ~b.ok THEN b ELSE Ok(b.i, GBack(n.v, b.v.pro, b.v.epi), NoLo)
 
 (* ------------------------- items and the module ------------------------ *)
@@ -423,16 +423,14 @@ X_Use(segs) ==      \* segs: sequence of names (each a sequence of parts)
       RECURSIVE J(_)
       J(s) == IF s = <<>> THEN <<>> ELSE IF Len(s) = 1 THEN s[1].t ELSE s[1].t \o <<Pu(":j"), Pu(":")>> \o J(Tail(s))
   IN G(<<Kw("use")>> \o J(ns) \o <<Pu(";")>>, Vals(ns))
-X_BackPro(n, s) == G(<<Id("backend"), X_IdentTok(n), Id("prologue"), St(s), Pu(";")>>, GBack(n, s, NoText))
-X_BackEpi(n, s) == G(<<Id("backend"), X_IdentTok(n), Id("epilogue"), St(s), Pu(";")>>, GBack(n, NoText, s))
-(* blocks: sequence of <<"prologue" | "epilogue", text>>; the texts of a kind are kept in source order, one per line *)
+X_BackPro(n, s) == G(<<Id("backend"), X_IdentTok(n), Id("prologue"), St(s), Pu(";")>>, GBack(n, <<s>>, <<>>))
+X_BackEpi(n, s) == G(<<Id("backend"), X_IdentTok(n), Id("epilogue"), St(s), Pu(";")>>, GBack(n, <<>>, <<s>>))
+(* blocks: sequence of <<"prologue" | "epilogue", text>>; the texts of a kind are kept in source order *)
 X_BackBraced(n, blocks) ==
-  LET RECURSIVE allOf(_, _, _)
-      allOf(w, i, acc) == IF i > Len(blocks) THEN acc
-                          ELSE allOf(w, i + 1, IF blocks[i][1] = w THEN JoinText(acc, blocks[i][2]) ELSE acc)
+  LET allOf(w) == LET s == SelectSeq(blocks, LAMBDA b : b[1] = w) IN [i \in DOMAIN s |-> s[i][2]]
   IN G(<<Id("backend"), X_IdentTok(n), Pu("{")>> \o Flatten([i \in DOMAIN blocks |-> <<Id(blocks[i][1]), St(blocks[i][2]), Pu(";")>>])
          \o <<Pu("}")>>,
-       GBack(n, allOf("prologue", 1, NoText), allOf("epilogue", 1, NoText)))
+       GBack(n, allOf("prologue"), allOf("epilogue")))
 
 (* a module: inner attributes, then items in the given order; kinds: "use", "back", "ext", "eval", "def", "impl" *)
 X_Mod(attrs, items) ==     \* items: sequence of [kind, g]
